@@ -287,8 +287,8 @@ def mk_ihgo(read, how, tier='quick'):
         if ref_ok:
             tuples.append(new)
         out.append(ok); exp.append(ref_ok)
-        out.append(hview(env, g, tuples, (2, b))); exp.append(ref_hview(tuples, (2, b)))
-        # a static index derived AFTER the growth must see the grown labels through every route
+        # a static index derived right AFTER the growth (before anything refreshes g's caches) must see
+        # the grown labels through every route
         if how == 0:
             d = sf.IndexHierarchy(g)
         elif how == 1:
@@ -296,6 +296,7 @@ def mk_ihgo(read, how, tier='quick'):
         else:
             d = g.copy()
         out.append(hview(env, d, tuples, (2, b))); exp.append(ref_hview(tuples, (2, b)))
+        out.append(hview(env, g, tuples, (2, b))); exp.append(ref_hview(tuples, (2, b)))
         return out, exp
     return Cond(f'hierarchy_go_append_derive_r{int(read)}_h{how}', [('a', 'int'), ('b', 'int')], body_ihgo, ranges={'a': (9, 11), 'b': (9, 11)},
         functions=['IndexHierarchyGO.append', 'IndexHierarchy.__init__', 'IndexHierarchy._update_array_cache'],
